@@ -49,3 +49,10 @@ func init() {
 		regionSpec{fn: "consensus.validateV2Siacoins", name: "balance", from: "var inputSum, outputSum types.Currency"},
 	)
 }
+
+func init() {
+	// C01 — "the total number of siafunds never changes": the siafund balance check of a v2 transaction (uint64 sums)
+	regionRoots = append(regionRoots,
+		regionSpec{fn: "consensus.validateV2Siafunds", name: "balance", from: "var inputSum, outputSum uint64"},
+	)
+}
